@@ -19,7 +19,8 @@ META = dict(
          "configuration is switched with abtem.config.set inside one worker process; FFTW wisdom accumulated earlier in the process is part of "
          "the explored environment.",
 )
-PIPES = ["probe", "pw_multislice", "stem", "prism", "interpolate", "diffraction", "gaussian", "lazy_multislice"]
+PIPES = ["probe", "pw_multislice", "stem", "prism", "interpolate", "diffraction", "gaussian", "lazy_multislice",
+         "eager_fp_multislice", "eager_fp_stem", "propagator_reuse", "prism_fp"]
 
 
 def configs(quick):
@@ -48,6 +49,26 @@ def pipeline(name):
         return np.asarray(abtem.PlaneWave(energy=1e5).multislice(U.potential("atoms", gpts=(24, 18)), lazy=False).array)
     if name == "lazy_multislice":
         return np.asarray(abtem.PlaneWave(energy=1e5).multislice(U.potential("fp2", gpts=(24, 18)), lazy=True).compute().array)
+    if name == "eager_fp_multislice":  # several configurations through ONE eager call: plan / buffer caches are reused between them
+        return np.asarray(abtem.PlaneWave(energy=1e5).multislice(U.potential("fp3", gpts=(24, 18)), lazy=False).array)
+    if name == "eager_fp_stem":
+        out = abtem.Probe(semiangle_cutoff=22, energy=1e5).multislice(U.potential("fp2", gpts=(24, 18)), scan=abtem.CustomScan([[1.0, 0.5], [2.2, 1.4], [0.1, 0.9]]),
+                                                                     detectors=abtem.PixelatedDetector(max_angle="valid"), lazy=False)
+        return np.asarray(out.array)
+    if name == "prism_fp":
+        S = abtem.SMatrix(potential=U.potential("fp2", gpts=(24, 18)), semiangle_cutoff=20, energy=1e5, interpolation=1, downsample=False)
+        return np.asarray(S.reduce(scan=abtem.CustomScan([[1.0, 0.5], [2.2, 1.4]]), lazy=False).array)
+    if name == "propagator_reuse":  # one propagator object, four different same-shaped wave arrays in a row, in place and not
+        from abtem.multislice import FresnelPropagator
+
+        r = rng("c38", name)
+        prop = FresnelPropagator()
+        outs = []
+        for i in range(4):
+            w = abtem.Waves((r.normal(size=(2, 12, 10)) + 1j * r.normal(size=(2, 12, 10))).astype(np.complex64), energy=1e5, sampling=0.2,
+                            ensemble_axes_metadata=[abtem.core.axes.OrdinalAxis(values=(0, 1))])
+            outs.append(np.asarray(prop.propagate(w, thickness=1.5 + (i % 2), in_place=bool(i % 2)).array).copy())
+        return np.stack(outs)
     if name == "stem":
         dets = [abtem.AnnularDetector(5, 40), abtem.FlexibleAnnularDetector(step_size=2.0), abtem.PixelatedDetector(max_angle="valid")]
         outs = abtem.Probe(semiangle_cutoff=22, energy=1e5).multislice(U.potential("atoms", gpts=(24, 18)), scan=abtem.GridScan(start=(0, 0), end=(2, 1.5), gpts=(2, 2)), detectors=dets, lazy=False)
